@@ -72,6 +72,51 @@ def label_str(lab):
     return f"{label_key(lab)}-{verts}-{edges}-{lab['id']}"
 
 
+def label_variants(raw):
+    """the labels themselves (all of them), and for the first few: the compact spelling, tuples instead of lists, a trailing comma,
+    blanks around the numbers; then malformed labels (too few fields, a field that is not a number / not a sequence)"""
+    out = list(dict.fromkeys(s for s in raw if isinstance(s, str)))
+    for s in out[:3]:
+        parts = s.split("-")
+        if len(parts) != 4:
+            continue
+        k, vs, es, i = parts
+        out.append(s.replace(" ", ""))
+        out.append(f"{k}-({vs[1:-1]},)-{es}-{i}" if vs[1:-1] else s)
+        out.append(f"{k}-{vs}-({es[1:-1]},)-{i}" if es[1:-1] else s)
+        out.append(f" {k} - {vs} - {es} - {i} ")
+        out.append(f"{k}-{vs[:-1]}-{es}-{i}")            # unbalanced member list
+        out.append(f"{k}-{vs}-{es[:-1]}-{i}")            # unbalanced edge list
+        out.append(f"x-{vs}-{es}-{i}")                   # key is not a number
+        out.append(f"{k}-{vs}-{es}-")                    # id missing
+        out.append(f"{k}-{vs}")                          # two fields only
+        out.append(f"{k}-{vs.replace(', ', ',,', 1)}-{es}-{i}" if ", " in vs else f"{k}-[,]-{es}-{i}")
+    out += ["", "7", "-"]
+    return list(dict.fromkeys(out))
+
+
+def real_accessors(mpm, s):
+    """the four accessors on one label; None = the call raises; values outside the modelled domain (not int / not a sequence of
+    ints / pairs) are reported as 'other'"""
+    def call(f, shape):
+        try:
+            v = f(s)
+        except Exception:
+            return None
+        try:
+            if shape == "int":
+                return v if isinstance(v, int) and not isinstance(v, bool) else "other"
+            if shape == "ints":
+                return [x for x in v] if isinstance(v, (list, tuple)) and all(type(x) is int for x in v) else "other"
+            if isinstance(v, (list, tuple)) and all(isinstance(e, (list, tuple)) and len(e) == 2 and all(type(x) is int for x in e) for e in v):
+                return [list(e) for e in v]
+            return "other"
+        except Exception:
+            return "other"
+    return {"key": call(mpm.get_motif_topology, "int"), "id": call(mpm.get_motif_ID, "int"),
+            "verts": call(mpm.get_vertices_in_motif, "ints"), "edges": call(mpm.get_edges_in_motif, "pairs")}
+
+
 def expectation(edges, root, phi, u):
     nodes = sorted({v for e in edges for v in e})
     E = len(edges)
@@ -143,7 +188,8 @@ class C17(Prop):
     assumptions = ["exact mode relies on 0.5 being dyadic so that Ex arithmetic stays exact; float mode compares doubles with tolerance 1e-9",
                    "convergence of the 25-sweep iterate to the fixed point is not a theorem (converges_full); the residual is reported",
                    "cover labels are consistent (every edge of a motif carries that motif's label)"]
-    model_scope = "modelled: message_passing.py in full on parsed labels; message_passing_mixin.py is checked by the harness, not modelled in Lean"
+    model_scope = ("modelled: message_passing.py in full, and the label accessors of message_passing_mixin.py (split / int / literal_eval on the "
+                   "grammar of the documented labels, Model/LabelParse.lean): the model is handed the label strings the graph stores")
     budgets = {"quick": 24, "thorough": 400}
     recheck = {"quick": 3, "thorough": 10}
     search_budget = {"quick": 80, "thorough": 500}
@@ -219,15 +265,24 @@ class C17(Prop):
                     or [list(e) for e in mpm.get_edges_in_motif(s)] != [list(e) for e in lab["edges"]]
                     or mpm.get_motif_topology(s) != label_key(lab)):
                 parse_ok = False
+        # the label strings as the graph stores them (the model parses these itself), and the real accessors on them, on other
+        # spellings Python reads the same way, and on malformed labels
+        raw = [G.edges[a, b]["CoverLabel"] for a, b in G.edges()]
+        table = []
+        for s in label_variants(raw):
+            table.append([s, real_accessors(mpm, s)])
         return {"fresh": fresh, "history": hist, "float25": fl, "edge_order": edge_order, "node_order": list(G.nodes()),
-                "parse_ok": parse_ok, "float_ladder": [ladder, fl_ladder, fl_ladder5]}
+                "parse_ok": parse_ok, "float_ladder": [ladder, fl_ladder, fl_ladder5], "raw_labels": raw, "label_table": table}
 
     def request(self, case, obs):
         return {"op": "ping"}
 
     def _rows_in_order(self, case, obs):
+        # the model is handed the label STRINGS the graph stores and parses them with its own model of the mixin's parser
+        # (Model/LabelParse.lean); a label that is not a string falls back to the generating structure
         lab_of = {frozenset((a, b)): lab for a, b, lab in case["edges"]}
-        return [[a, b, lab_of[frozenset((a, b))]] for a, b in obs["edge_order"]]
+        raw = obs.get("raw_labels") or [None] * len(obs["edge_order"])
+        return [[a, b, s if isinstance(s, str) else lab_of[frozenset((a, b))]] for (a, b), s in zip(obs["edge_order"], raw)]
 
     def model(self, case, reply, obs):
         rows = self._rows_in_order(case, obs)
@@ -238,12 +293,14 @@ class C17(Prop):
         import struct
         vf = struct.unpack("<d", struct.pack("<Q", r[1]["value_bits"]))[0]
         d = abs(vf - obs["float25"])
-        return {"fresh": r[0]["values"], "float25_close": d < 1e-9}
+        tab = run_driver([{"op": "c17_labels", "labels": [s for s, _ in obs["label_table"]]}])[0]["parsed"]
+        return {"fresh": r[0]["values"], "float25_close": d < 1e-9,
+                "label_parser": [[s, m] for (s, _), m in zip(obs["label_table"], tab)]}
 
     def project(self, case, obs):
         if "exc" in obs:
             return {"exc": obs["exc"]}
-        return {"fresh": obs["fresh"], "float25_close": True}
+        return {"fresh": obs["fresh"], "float25_close": True, "label_parser": obs["label_table"]}
 
     def oracle(self, case, obs):
         if "exc" in obs:
